@@ -103,7 +103,12 @@ def generate(seed, tier):
                     r = m.gen_recipe(crng, tier, big=(i % 10 == 3))
                 ss = 512
             elif cls == "c01":
-                r = m.gen_qcow2.gen_recipe(crng, "quick", nsnaps=0, many_l2=(i % 6 == 2))
+                if i % 4 == 1:      # external data file with arbitrary placement and enough clusters for multi-cluster requests
+                    cb = crng.choice([9, 10, 12])
+                    r = m.gen_qcow2.gen_recipe(crng, "quick", nsnaps=0, version=3, ext=False, datafile="arb", cluster_bits=cb,
+                                               size=crng.randrange(40, 200) << cb)
+                else:
+                    r = m.gen_qcow2.gen_recipe(crng, "quick", nsnaps=0, many_l2=(i % 6 == 2))
                 ss = 512
             else:
                 r = m.gen_recipe(crng, tier, big=(i % 15 == 3)) if cls != "c06" else m.gen_recipe(crng, tier)
